@@ -2,7 +2,7 @@
 From Coq Require Import ZArith QArith Qreals List Reals Bool.
 From Coquelicot Require Import Complex.
 From PyqspV Require Import Base.Ops Model.LPolyM Model.LAlgM Model.QInst Model.ConvM Model.Checkers
-  Theory.RingK Theory.LPolyT Theory.CplxT Theory.ConvT Theory.QC Theory.C01T Theory.ChebT Theory.C11T.
+  Theory.RingK Theory.LPolyT Theory.CplxT Theory.ConvT Theory.QC Theory.C01T Theory.ChebT Theory.C11T Theory.P2CT.
 Import ListNotations.
 
 Section Ring.
@@ -36,6 +36,27 @@ Print Assumptions C11_ptlf_denotes_p.
 Print Assumptions C11_chebT_laurent.
 Print Assumptions C11_chebU_laurent.
 Print Assumptions C11_cheb2poly_denotes_sum.
+
+(* poly2cheb (top-down elimination) and cheb2poly invert each other, for every input, both kinds,
+   over any commutative ring with 1/2 (real and complex coefficients alike) *)
+Section Inverse.
+  Variable K : CRing.
+  Variable half : K.
+  Hypothesis half2 : kadd half half = k1.
+  Theorem C11_poly2cheb_denotes_p kindU p x : chebsum K kindU (p2c OpsK half kindU p) 0 x = peval p x.
+  Proof. exact (p2c_sound K half half2 kindU p x). Qed.
+  Theorem C11_cheb2poly_after_poly2cheb kindU p x : peval (c2p OpsK kindU (p2c OpsK half kindU p)) x = peval p x.
+  Proof. exact (c2p_p2c K half half2 kindU p x). Qed.
+  Theorem C11_poly2cheb_after_cheb2poly kindU cs x :
+    chebsum K kindU (p2c OpsK half kindU (c2p OpsK kindU cs)) 0 x = chebsum K kindU cs 0 x.
+  Proof. exact (p2c_c2p K half half2 kindU cs x). Qed.
+  Theorem C11_poly2cheb_length kindU p : length (p2c OpsK half kindU p) = length p.
+  Proof. exact (p2c_length K half half2 kindU p). Qed.
+End Inverse.
+Print Assumptions C11_poly2cheb_denotes_p.
+Print Assumptions C11_cheb2poly_after_poly2cheb.
+Print Assumptions C11_poly2cheb_after_cheb2poly.
+Print Assumptions C11_poly2cheb_length.
 
 (* certificates evaluated on every instance of the run *)
 Theorem C11_laurent_certificate (p l : list Q) theta : check_p2l p l = true ->
